@@ -296,7 +296,11 @@ def run(ctx):
                     chk.ok("R10.c", fi.qualname, ev.loc, "remove(observer)")
                 else:
                     chk.violation("R10.c", fi, ev.node, "unsubscribe does not remove exactly its argument", loc=ev.loc)
-            elif fi.name == "__init__" and fi.cls is disp and op == "assign" and is_empty_list(getattr(ev.node, "value", None)):
+            elif (
+                op == "assign" and is_empty_list(getattr(ev.node, "value", None)) and fi.cls is disp
+                and (fi.name == "__init__" or (disp.methods.get("__init__") is not None and only_called_from(ctx, fi, {disp.methods["__init__"]})))
+            ):
+                # the constructor, or a private step only the constructor runs
                 chk.ok("R10.c", fi.qualname, ev.loc, "initialised empty")
             else:
                 chk.violation(
